@@ -264,6 +264,13 @@ fn gen(tier: &str, seed: u64, out: &mut dyn FnMut(String)) {
               // round-2 corpus: long trailing runs with unequal lengths on an inner joining axis; -0.0 through column_stack; uneven split of >= 4096 elements
               "append i2,1,8,8 i2,2,8,8+1000 1", "concatenate i2,1,64;i2,3,64+1000 1", "concatenate i2,2,64;i2,2,64+1000;i2,2,64+2000 1", "column_stack 2,2:0,1,0,3;2:0,0",
               "array_split i16,20,16 3 1", "array_split i70,70 3 0", "split_concat i16,20,16 3 1"] { out(l.to_string()); }
+    // rank-0 receivers (`Array::new(vec![x], vec![])`, spelled `i-` / `i-+off`): the defaulted axis is validated (/repo 3685e2a), so every
+    // splitting call is refused — `array_split` / `split` with `None` used to panic at `self.shape[0]` (fixes/C09-split-rank0.md)
+    for a in ["i-", "i-+7"] {
+        for p in 0..=2 { for ax in ["none", "0", "1"] { out(format!("array_split {a} {p} {ax}")); out(format!("split {a} {p} {ax}")); } }
+        out(format!("split_axis {a} 0")); out(format!("split_axis {a} 1")); out(format!("split_concat {a} 1 0")); out(format!("split_concat {a} 2 0"));
+        for p in 0..=2 { out(format!("hsplit {a} {p}")); out(format!("vsplit {a} {p}")); out(format!("dsplit {a} {p}")); }
+    }
     let mut all = shapes(1, 4, 1, 3);
     all.extend(vec![vec![4], vec![5], vec![7], vec![2, 4], vec![5, 2], vec![2, 2, 5]]);
     for s in &all {
